@@ -160,6 +160,31 @@ func TestParseV1Header(t *testing.T) {
 			err:    "while parsing proxy proto v1 header: invalid port '022' at pos '2'",
 		},
 		{
+			name:   "Trailing token",
+			header: "PROXY TCP4 192.168.1.1 192.168.1.1 22 2345 junk\r\n",
+			err:    "while parsing proxy proto v1 header: unexpected 'junk' after the destination port",
+		},
+		{
+			name:   "Trailing space",
+			header: "PROXY TCP4 192.168.1.1 192.168.1.1 22 2345 \r\n",
+			err:    "while parsing proxy proto v1 header: unexpected '' after the destination port",
+		},
+		{
+			name:   "IPv6 address in a TCP4 line",
+			header: "PROXY TCP4 ::1 192.168.1.1 22 2345\r\n",
+			err:    "while parsing proxy proto v1 header: ip '::1' at pos '0' is not of the protocol's address family",
+		},
+		{
+			name:   "IPv4 address in a TCP6 line",
+			header: "PROXY TCP6 ::1 192.168.1.1 22 2345\r\n",
+			err:    "while parsing proxy proto v1 header: ip '192.168.1.1' at pos '1' is not of the protocol's address family",
+		},
+		{
+			name:   "No space after the protocol",
+			header: "PROXY TCP4X192.168.1.1 192.168.1.1 22 2345\r\n",
+			err:    "while parsing proxy proto v1 header: expected a space after the protocol, found 'X'",
+		},
+		{
 			name:   "Corrupted address line",
 			header: "PROXY TCP4 192.168.1.1 192.168.1.1 2345\r\n",
 			err:    "while parsing proxy proto v1 header: address line '192.168.1.1 192.168.1.1 2345' corrupted",
